@@ -301,7 +301,7 @@ func profSite(before, after map[profKey]int64) string {
 	frames := runtime.CallersFrames(best[:n])
 	for {
 		f, more := frames.Next()
-		if contains(f.Function, tarsMark) {
+		if contains(f.Function, tarsMark) || contains(f.Function, genMark) {
 			return siteClass(f.Function + "(")
 		}
 		if !more {
